@@ -1,7 +1,8 @@
 """C11 — ragged Vector keeps its structural invariants under any operation history.
 
 Model-based: a generated history (creation from shape / data, cell / slice / fancy assignment and
-retrieval through __setitem__/__getitem__ and set_data/get_data, slicing to new Vectors, field
+retrieval through __setitem__/__getitem__ and set_data/get_data, slicing to new Vectors, slice / fancy
+assignment of Vector values (fresh, sliced now, or held from earlier and possibly stale), field
 arithmetic, flatten / set_flattened, add_fields / remove_fields, copy, metadata writes, a second and
 third independently created Vector) is applied to real `Vector` objects and to the pure-Python
 reference model in vq/refs/c11_vector_model.py.  After EVERY step every live Vector is read back
@@ -22,6 +23,7 @@ from __future__ import annotations
 import contextlib
 import copy
 import io
+import itertools
 
 import numpy as np
 from hypothesis import strategies as st
@@ -124,6 +126,16 @@ def create_spec(draw):
     return spec
 
 
+# v[...] = <Vector>: right-hand side is a slice of another/the same live vector taken now ("slice"), a slice
+# of the destination vector taken earlier in the history or just before an add/remove of fields ("held"),
+# or a fresh Vector.from_data with k, k+1 or k-1 columns ("fresh")
+def _av():
+    return _fd(
+        "assign_vector", slot=slots, src=slots, exprs=EXPRS3, multi=small, rhs=st.sampled_from(["slice", "held", "held", "fresh", "fresh"]),
+        reg=st.integers(0, 1), use_reg=st.sampled_from([True, True, False]), between=st.sampled_from([None, None, "add", "remove"]),
+        shift=idx3, delta=st.sampled_from([0, 0, 0, 1, -1]), seed=seeds, as_array=st.booleans(),
+    )
+
 STEP = st.one_of(
     _fd("set_cell", slot=slots, idx=idx3, rows=nrows, seed=seeds, via=st.sampled_from(["setitem", "set_data"]), bad=BAD),
     _fd("set_cell", slot=slots, idx=idx3, rows=nrows, seed=seeds, via=st.sampled_from(["setitem", "set_data"]), bad=BAD),
@@ -143,7 +155,8 @@ STEP = st.one_of(
         bad=BAD, bad_pos=small,
     ),
     _fd("get_many", slot=slots, exprs=EXPRS3, via=st.sampled_from(["slice", "slice", "get_data"]), drop=st.integers(0, 2), bare=st.booleans()),
-    _fd("assign_vector", slot=slots, src=slots, exprs=EXPRS3, multi=small),
+    _fd("hold", slot=slots, exprs=EXPRS3, multi=small, reg=st.integers(0, 1)),
+    _av(), _av(), _av(),  # (separate instances: one_of drops repeated identical strategy objects)
     _fd("field_op", slot=slots, f=small, operator=st.sampled_from(["+", "-", "*", "/"]), scalar=st.integers(0, len(SCALARS) - 1)),
     _fd("field_callable", slot=slots, f=small, fn=st.sampled_from(sorted(FUNCS))),
     _fd("field_set_flat", slot=slots, f=small, seed=seeds, via=st.sampled_from(["set_flattened", "setitem_str", "list"]), bad_len=st.sampled_from([0, 0, 0, 0, 1, -1])),
@@ -286,6 +299,7 @@ class History:
         self.case = case
         self.live = []  # [Vector, VectorModel]
         self.dropped = []
+        self.held = [None, None]  # (owner Vector, index sets, sliced Vector) kept by `hold` steps
         self.nstep = 0
         self.classes = []
         self.flags = {"fieldchange": False, "assign": False, "slice": False, "non2d": False, "executed": 0}
@@ -548,30 +562,154 @@ class History:
         self.flags["slice"] = True
         self.classes.append("slice:%dd:%s" % (m.ndim, "partial" if len(mes) < m.ndim else "full"))
 
+    def _take_slice(self, step, s, v, m):
+        """held = v[expr] with every addressed cell populated first (a Vector right-hand side needs populated
+        cells); verified against the model.  -> (index sets, sliced Vector, description)"""
+        mes0, ses0 = self._resolve(step, m, assign=True, force_multi=True)
+        sets, cells0 = m.addressed(mes0)
+        desc0 = ", ".join(_fmt_expr(e) for e in mes0)
+        if any(m.cells[c] is None for c in cells0):
+            rows0 = [rows_for(step["multi"] + 3 + t, (step["multi"] + t) % 3, m.k) for t in range(len(cells0))]
+            arrs0 = [as_array(r, m.k) for r in rows0]
+            self.must("v#%d[%s] = <list of %d arrays>" % (s, desc0, len(arrs0)), lambda: v.__setitem__(tuple(ses0), arrs0))
+            m.set_many(mes0, rows0)
+            self.flags["assign"] = True
+        held = self.must("held = v#%d[%s]" % (s, desc0), lambda: v[tuple(ses0)])
+        if not isinstance(held, _V()):
+            self.viol("v#%d[%s] returned %s, expected a Vector" % (s, desc0, _short(held)))
+        p = vec_problem(held, m.select(mes0), meta=False)
+        if p:
+            self.viol("v#%d[%s] (source shape %r) returned a Vector with %s" % (s, desc0, m.shape, p))
+        self.flags["slice"] = True
+        return sets, held, desc0
+
+    def op_hold(self, step):
+        """s = v[expr] kept for a later `v[...] = s.copy()` (a view: only ever read by the harness)"""
+        s, v, m = self.pick(step)
+        sets, held, _desc = self._take_slice(step, s, v, m)
+        self.held[step["reg"]] = (v, sets, held)
+
+    def _observe_rhs(self, rhs, k):
+        """cells of a right-hand-side Vector read through its public API in row-major order
+        -> (list of ndarray | None, 'match' | 'mismatch' | 'unset')"""
+        cells = [_get_cell(rhs, idx) for idx in itertools.product(*[range(n) for n in rhs.shape])]
+        if any(c is None for c in cells):
+            return cells, "unset"
+        ok = all(isinstance(c, np.ndarray) and c.ndim == 2 and c.shape[1] == k for c in cells)
+        return cells, "match" if ok else "mismatch"
+
+    def _assign_rhs(self, s, v, m, mes, key, rhs_vec, status, exp_rows, what, tag):
+        """v[key] = rhs_vec; matching column counts: addressed cells must equal exp_rows afterwards;
+        mismatching: ValueError and (checked by check_all right after) nothing changed"""
+        ok, _ = self.call(what, lambda: v.__setitem__(key, rhs_vec), ValueError if status == "mismatch" else None)
+        if status == "mismatch":
+            if ok:
+                self.viol("%s accepted a Vector whose cells do not have %d columns" % (what, m.k))
+            self.classes.append("assign_vector:%s:mismatch-rejected" % tag)
+            return
+        m.set_many(mes, exp_rows)
+        self.flags["assign"] = True
+        self.classes.append("assign_vector:%s:match" % tag)
+
     def op_assign_vector(self, step):
-        """v[expr] = w[expr].copy(): a Vector on the right-hand side (fresh cells through copy())"""
+        """v[...] = <Vector>.  The stored arrays are always fresh (copy() of a slice, or a from_data Vector
+        that is dropped afterwards), so no two live cells alias."""
+        rhs = step.get("rhs", "slice")
+        if rhs == "fresh":
+            return self._assign_fresh(step)
+        if rhs == "held":
+            return self._assign_held(step)
         s, v, m = self.pick(step)
         s2 = step["src"] % len(self.live)
         w, wm = self.live[s2]
         mes, ses = self._resolve(step, m, assign=True, force_multi=True)
-        if wm.shape != m.shape or wm.k != m.k:
-            s2, w, wm = s, v, m
-        if any(c is None for c in wm.get_many(mes)):
+        if wm.shape != m.shape or any(c is None for c in wm.get_many(mes)):
             s2, w, wm = s, v, m
         if any(c is None for c in wm.get_many(mes)):
             return False  # unset source cells: outside what a Vector right-hand side supports
         key = tuple(ses)
         desc = ", ".join(_fmt_expr(e) for e in mes)
         what = "v#%d[%s] = v#%d[%s].copy()" % (s, desc, s2, desc)
-
-        def fn():
-            rhs = w[key].copy()
-            v[key] = rhs
-
-        self.must(what, fn)
-        m.set_many(mes, wm.get_many(mes))
-        self.flags["assign"] = True
+        rhs_vec = self.must("v#%d[%s].copy()" % (s2, desc), lambda: w[key].copy())
         self.flags["slice"] = True
+        self._assign_rhs(s, v, m, mes, key, rhs_vec, "match" if wm.k == m.k else "mismatch", wm.get_many(mes), what, "slice")
+
+    def _assign_fresh(self, step):
+        s, v, m = self.pick(step)
+        mes, ses = self._resolve(step, m, assign=True, force_multi=True)
+        n = len(m.addressed(mes)[1])
+        k2 = m.k + step["delta"]
+        if k2 < 1:
+            k2 = m.k + 1
+        rows_list = [rows_for(step["seed"] + t, (step["seed"] + t) % 4, k2) for t in range(n)]
+        data = [as_array(r, k2) if (step["as_array"] or not r) else copy.deepcopy(r) for r in rows_list]
+        rhs_vec = self.must("Vector.from_data(<%d cells with %d columns>)" % (n, k2), lambda: _V().from_data(data))
+        key = ses[0] if (m.ndim == 1 and step["multi"] % 2) else tuple(ses)
+        what = "v#%d[%s] = Vector.from_data(<%d cells with %d columns>) (%d fields)" % (s, ", ".join(_fmt_expr(e) for e in mes), n, k2, m.k)
+        self._assign_rhs(s, v, m, mes, key, rhs_vec, "match" if k2 == m.k else "mismatch", rows_list, what, "fresh")
+
+    def _assign_held(self, step):
+        """s = v[a] (taken earlier in the history, or now); optionally add/remove a field of v; v[b] = s.copy()
+        where b addresses as many cells as a (a's index sets shifted cyclically per dimension)"""
+        ent, slot = None, None
+        if step["use_reg"]:
+            for r in (step["reg"], 1 - step["reg"]):
+                e = self.held[r]
+                if e is not None:
+                    slot = next((i for i, (lv, _lm) in enumerate(self.live) if lv is e[0]), None)
+                    if slot is not None:
+                        ent = e
+                        break
+        if slot is None:
+            s, v, m = self.pick(step)
+            sets, held, desc0 = self._take_slice(step, s, v, m)
+            origin = "v#%d[%s]" % (s, desc0)
+        else:
+            s = slot
+            v, m = self.live[s]
+            if m.ndim != 2:
+                self.flags["non2d"] = True
+            _owner, sets, held = ent
+            origin = "<slice of v#%d held from an earlier step>" % s
+            self.classes.append("assign_vector:held:from-register")
+        self.flags["slice"] = True
+        if step["between"] == "add" and m.k < MAX_FIELDS:
+            name = next(nm for nm in NAME_POOL + ["w%d" % i for i in range(MAX_FIELDS)] if nm not in m.fields)
+            self.must("v#%d.add_fields(%r)" % (s, name), lambda: v.add_fields(name))
+            m.add_fields([name])
+            self.flags["fieldchange"] = True
+        elif step["between"] == "remove" and m.k >= 2:
+            name = m.fields[step["shift"][0] % m.k]
+            self.must("v#%d.remove_fields(%r)" % (s, name), lambda: v.remove_fields(name))
+            m.remove_fields([name])
+            self.flags["fieldchange"] = True
+        # destination: the held index sets shifted cyclically; one-element sets become integers
+        mes, ses = [], []
+        for d, st_ in enumerate(sets):
+            sh = [(i + step["shift"][d]) % m.shape[d] for i in st_]
+            if len(sh) == 1:
+                mes.append(("i", sh[0]))
+                ses.append(sh[0])
+            elif (step["seed"] + d) % 2:
+                mes.append(("a", sh))
+                ses.append(np.array(sh))
+            else:
+                mes.append(("l", sh))
+                ses.append(list(sh))
+        if all(e[0] == "i" for e in mes):
+            i = mes[0][1]
+            mes[0], ses[0] = ("s", (i, i + 1, None)), slice(i, i + 1)
+        cells, status = self._observe_rhs(held, m.k)
+        if status == "unset":
+            self.classes.append("assign_vector:held:unset-source-skipped")
+            return False  # unset source cells: outside what a Vector right-hand side supports
+        stale = list(held.fields) != m.fields
+        if stale:
+            self.classes.append("assign_vector:held:stale-fields")
+        exp_rows = [c.tolist() for c in cells] if status == "match" else None
+        rhs_vec = self.must("%s.copy()" % origin, held.copy)
+        what = "v#%d[%s] = %s.copy() (held fields %r, now %r)" % (s, ", ".join(_fmt_expr(e) for e in mes), origin, list(held.fields), m.fields)
+        self._assign_rhs(s, v, m, mes, tuple(ses), rhs_vec, status, exp_rows, what, "held-stale" if stale else "held")
 
     def op_field_op(self, step):
         s, v, m = self.pick(step)
